@@ -18,7 +18,7 @@ func init() {
 	register(&Property{
 		ID:      "C05",
 		Run:     runC05,
-		Explain: "Tables and call shapes evaluated from the source: (1) the per-etype parameter table (6 etypes × 10 constant-returning methods, folded from SSA) against RFC 3961 §6.3, 3962 §6, 8009 §5, 4757 and the IANA registry, and the GetEtype switch table; (2) the Ke/Ki/Kc usage octets 0xAA/0x55/0x99 appended to the 4-byte big-endian usage; (3) the RC4 message-type translation table {3→8, 9→8, 23→13} and its fixed-width 4-byte little-endian encoding; (4) in each of the four EncryptMessage implementations the confounder buffer of GetConfounderByteSize() bytes is filled by crypto/rand.Read with the error checked and is the prefix of what is encrypted; (5) per family, encryption and decryption derive the cipher key and compute the integrity hash with the same calls over the same operands and agree on the ciphertext‖MAC layout; (6) GetEncryptedData stamps etype and kvno. Necessary conditions of interoperability, not the ciphertext bytes.",
+		Explain: "Tables and call shapes evaluated from the source: (1) the per-etype parameter table (6 etypes × 10 constant-returning methods, folded from SSA) against RFC 3961 §6.3, 3962 §6, 8009 §5, 4757 and the IANA registry, and the GetEtype switch table; (2) the Ke/Ki/Kc usage octets 0xAA/0x55/0x99 appended to the 4-byte big-endian usage; (3) the RC4 message-type translation table {3→8, 9→8, 23→13} and its fixed-width 4-byte little-endian encoding; (4) in each of the four EncryptMessage implementations the confounder buffer of GetConfounderByteSize() bytes is filled by crypto/rand.Read with the error checked and is the prefix of what is encrypted; (5) per family, encryption and decryption derive the cipher key and compute the integrity hash with the same calls over the same operands and agree on the ciphertext‖MAC layout; (6) GetEncryptedData stamps etype and kvno. Necessary conditions of interoperability, not the ciphertext bytes. Added: the usage constant is read as byte placements (BE32(usage)@0:4 ‖ octet@4:5, whatever assembles it); des3 takes the MAC over the same zero-padded buffer it encrypts; the crypto packages keep no package-level state (or only a memo table keyed by every parameter itself).",
 		NotDecided: []string{
 			"ciphertext bytes equal to an independent implementation's for all inputs (AES-CTS, CBC, RC4, HMAC, n-fold arithmetic)",
 			"aescts dependency",
